@@ -42,6 +42,7 @@ type StructCheck struct {
 	Methods  []string `json:"methods"`  // declared-on: must be declared on the type itself (not promoted)
 	Mutating []string `json:"mutating"` // iface-classified: every interface method is in one of the two lists
 	ReadOnly []string `json:"readonly"`
+	Forbidden []string `json:"forbidden"` // no-calls: forbidden callee prefixes ("os.", "time.Now", ...)
 }
 
 type Finding struct {
@@ -568,6 +569,52 @@ type structResult struct {
 func runStructChecks(w *engine.World, checks []StructCheck) []structResult {
 	var out []structResult
 	for _, c := range checks {
+		if c.Kind == "no-calls" {
+			sp := w.Pkgs[c.Pkg]
+			short := c.Pkg[strings.LastIndex(c.Pkg, "/")+1:]
+			if sp == nil {
+				out = append(out, structResult{"struct/" + short + "/no-calls", false, "package not loaded"})
+				continue
+			}
+			bad := map[string]string{}
+			nfn := 0
+			for fn := range ssautil.AllFunctions(w.Prog) {
+				if fn.Pkg != sp || strings.Contains(fn.Name(), "verif") {
+					continue
+				}
+				if pos := w.Fset.Position(fn.Pos()); strings.Contains(pos.Filename, "verif_contracts") {
+					continue
+				}
+				nfn++
+				for _, b := range fn.Blocks {
+					for _, in := range b.Instrs {
+						cc, ok := in.(ssa.CallInstruction)
+						if !ok {
+							continue
+						}
+						callee := cc.Common().StaticCallee()
+						if callee == nil {
+							continue
+						}
+						name := callee.String()
+						for _, f := range c.Forbidden {
+							if strings.HasPrefix(name, f) {
+								bad[f] = engine.ShortFn(fn) + " calls " + name
+							}
+						}
+					}
+				}
+			}
+			for _, f := range c.Forbidden {
+				name := fmt.Sprintf("struct/%s/no-calls:%s", short, f)
+				if why, isBad := bad[f]; isBad {
+					out = append(out, structResult{name, false, why + ": host state must be reached only through the sys.Context"})
+				} else {
+					out = append(out, structResult{name, nfn > 0, "no functions scanned"})
+				}
+			}
+			continue
+		}
 		pkg := w.PPkgs[c.Pkg]
 		if pkg == nil {
 			out = append(out, structResult{fmt.Sprintf("struct/%s.%s/%s", c.Pkg, c.Type, c.Kind), false, "package not loaded"})
